@@ -445,6 +445,14 @@ func GenBankParser(state *pars.State, result *pars.Result) error {
 		}
 	}
 
+	// Lines that no field parser takes are skipped above, an ORIGIN line that
+	// is not recognised with them: the residues must still be all there,
+	// unless the record names the CONTIG they are to be taken from.
+	if n := gb.Origin.Len(); n != length && !(n == 0 && gb.Fields.Contig.String() != "") {
+		what := fmt.Sprintf("LOCUS declares a length of %d, the record holds %d residues", length, n)
+		return pars.NewError(what, state.Position())
+	}
+
 	result.SetValue(*gb)
 	return nil
 }
